@@ -120,6 +120,16 @@ REVERTS = [
  ("R-org-before-switch", "C02", "9630515 63de58d", ".org directly followed by a segment switch is lost"),
  ("R-includepath-panic", "C16", "7410e14", "relative .includepath in a macro body panics"),
  ("R-cli-same-output-spelling", "C18", "ef3c1cb", "-o out.hex -e ./out.hex loses the flash image silently"),
+ ("R-macro-line-length", "C16", "c243025", "m @0@0 recursion doubles its argument until memory is gone"),
+ ("R-includepath-own-directory", "C11", "f446de7", ".includepath of the file's own directory not handed on"),
+ ("R-empty-flash-not-written", "C18", "cb20c45", "no .hex for an empty flash image, stale file stays"),
+ ("R-define-symbol-clash", "C10", "d6b2fc4", "#define FOO / .equ foo = 1 / rjmp FOO reads 0"),
+ ("R-pc-as-label", "C10", "7783163", "label or .equ named pc accepted"),
+ ("R-undef-two-names", "C10", "6571ebb", ".undef a, b ends a only"),
+ ("R-def-register-name", "C10", "7d69954", ".def r5 = r20 accepted and ignored"),
+ ("R-build-evaluation-budget", "C16", "f373a4d", "long ladder used on every line takes minutes"),
+ ("R-endless-source-file", "C16", "a84bfdc", ".include \"/dev/zero\" eats the memory"),
+ ("R-blank-in-increment", "C14", "c7ac8d4", "ld r16, X + is a syntax error"),
 ]
 
 def sh(cmd, **kw):
